@@ -139,6 +139,33 @@ GlueVerts(l1, v1, l2, v2, N) ==
     IN  [k \in 1..Len(s1) |-> <<l1.f, s1[k][1], s1[k][2]>>]
         \o [k \in 1..(Len(s2) - 2) |-> <<l2.f, s2[k + 1][1], s2[k + 1][2]>>]
 
+(* A rectangle with a thin SPIKE: a coarse rectangle r and a fine rectangle sp (1 fine cell
+   wide, a few long) standing on one of r's sides, side = 0 right, 1 top, 2 left, 3 bottom,
+   at fine position pos along that side.  As a region it is the polygon <<r, sp>> (disjoint
+   interiors, parity = union; reversing r gives exactly the complement); its boundary is one
+   loop: around the spike from one foot to the other, then the path around r back to the first.
+   Such a loop has a large index cell that contains very short edges.                       *)
+SpikeRect(r, side, pos, len, wid) ==
+    CASE side = 0 -> [r EXCEPT !.X0 = r.X1, !.X1 = r.X1 + len, !.Y0 = pos, !.Y1 = pos + wid, !.m = 0]
+      [] side = 1 -> [r EXCEPT !.Y0 = r.Y1, !.Y1 = r.Y1 + len, !.X0 = pos, !.X1 = pos + wid, !.m = 0]
+      [] side = 2 -> [r EXCEPT !.X1 = r.X0, !.X0 = r.X0 - len, !.Y0 = pos, !.Y1 = pos + wid, !.m = 0]
+      [] side = 3 -> [r EXCEPT !.Y1 = r.Y0, !.Y0 = r.Y0 - len, !.X0 = pos, !.X1 = pos + wid, !.m = 0]
+\* the spike stands strictly inside the side it is attached to
+SpikeOK(r, sp, side) ==
+    IF side \in {0, 2} THEN r.Y0 < sp.Y0 /\ sp.Y1 < r.Y1 ELSE r.X0 < sp.X0 /\ sp.X1 < r.X1
+\* the feet <<b, a>>: the counter-clockwise path around sp from b to a covers its three free sides
+SpikeFeet(sp, side) ==
+    CASE side = 0 -> << <<sp.X0, sp.Y0>>, <<sp.X0, sp.Y1>> >>
+      [] side = 1 -> << <<sp.X1, sp.Y0>>, <<sp.X0, sp.Y0>> >>
+      [] side = 2 -> << <<sp.X1, sp.Y1>>, <<sp.X1, sp.Y0>> >>
+      [] side = 3 -> << <<sp.X0, sp.Y1>>, <<sp.X1, sp.Y1>> >>
+\* vr, vs: counter-clockwise vertex sequences of r and sp, both containing the two feet
+\* The spike's own (short) edges come first in the loop: the code tests a cell's edges in index order
+\* and (in this tree) keeps the candidate cells of the previous edge, so order matters to it.
+SpikeVerts(vr, vs, feet) ==
+    LET rest == PathBetween(vr, feet[2], feet[1])
+    IN  PathBetween(vs, feet[1], feet[2]) \o SubSeq(rest, 2, Len(rest) - 1)
+
 \* grid point (x,y) of face l.f lies on the boundary: the four cells around it disagree
 OnBoundary(l, x, y) ==
     {InShapeXY(l, x - 1, y - 1), InShapeXY(l, x, y - 1), InShapeXY(l, x - 1, y), InShapeXY(l, x, y)} = {TRUE, FALSE}
